@@ -21,6 +21,7 @@ func init() {
 			c.ruleCheckInitOnSuccess("R-CHECKINIT")
 			c.ruleCheckInitSkips("R-CHECKINIT-SKIP")
 			c.ruleLazyInitTrust("R-LAZY-INIT-TRUST")
+			c.ruleLazyFlags("R-LAZY-FLAGS")
 			c.ruleOneofIsInit("R-ONEOF-ISINIT")
 		},
 	})
@@ -544,4 +545,40 @@ func (c *Ctx) ruleOneofIsInit(rule string) {
 	R.Check(found, rule, fi.Key+" member slot", P.Pos(loop),
 		"each member with an isInit element coder gets a non-nil isInit slot",
 		"only the first oneof member gets an isInit function, but the decode loops consult the decoded member's own slot (`f.funcs.isInit != nil && !o.initialized`): a submessage with unset required fields decoded into any other member is reported initialized and Unmarshal skips the required-field check")
+}
+
+// ---------------------------------------------------------------- R-LAZY-FLAGS
+
+// The init check trusts an unexpanded lazy field according to the flags
+// recorded in its message's lazy info. Those flags must therefore describe the
+// decode that produced the buffer: every SetBuffer on a lazy info is dominated
+// by a SetUnmarshalFlags on the same function's options.
+func (c *Ctx) ruleLazyFlags(rule string) {
+	R, P := c.R, c.P
+	R.Rule(rule, "every call that publishes a lazy buffer (XXX_lazyUnmarshalInfo.SetBuffer) is dominated, in the same function, by a SetUnmarshalFlags call taking the current decode options' flags: the trust decision of checkInitialized (UnmarshalCheckRequired recorded) always describes the decode that produced the buffer", 1)
+	for _, pkg := range []string{"internal/impl", "proto"} {
+		for _, fi := range P.FuncsIn(pkg) {
+			if fi.Decl.Body == nil {
+				continue
+			}
+			info := fi.Info()
+			calls := allCalls(info, fi.Decl.Body, "internal/protolazy.(*XXX_lazyUnmarshalInfo).SetBuffer")
+			if len(calls) == 0 {
+				continue
+			}
+			g := fi.CFG()
+			for i, call := range calls {
+				ok := g.DominatedByNode(call, func(n ast.Node) bool {
+					fc := containsCall(info, n, "internal/protolazy.(*XXX_lazyUnmarshalInfo).SetUnmarshalFlags")
+					if fc == nil || len(fc.Args) != 1 {
+						return false
+					}
+					_, f, isSel := fieldSel(info, fc.Args[0])
+					return isSel && f == "flags"
+				})
+				R.Check(ok, rule, fi.Key+" SetBuffer #"+itoa(i+1), P.Pos(call), "dominated by SetUnmarshalFlags(opts.flags)",
+					"a lazy buffer is published on a path that did not record the current decode's flags: stale flags from an earlier decode (e.g. UnmarshalCheckRequired) would make checkInitialized trust a buffer that was decoded with AllowPartial")
+			}
+		}
+	}
 }
